@@ -378,6 +378,21 @@ func allocEscapes(a *ssa.Alloc) bool {
 	return visit(a)
 }
 
+// hasWholeStore: some instruction stores a whole value into the alloc (e.g. a
+// spilled parameter); such a local is not "uninitialised" when a region
+// starts after that store.
+func hasWholeStore(a *ssa.Alloc) bool {
+	if a.Referrers() == nil {
+		return false
+	}
+	for _, r := range *a.Referrers() {
+		if st, ok := r.(*ssa.Store); ok && st.Addr == a {
+			return true
+		}
+	}
+	return false
+}
+
 func structFieldName(t types.Type, i int) string {
 	if p, ok := t.Underlying().(*types.Pointer); ok {
 		t = p.Elem()
@@ -541,7 +556,7 @@ func (w *Walker) load(s *State, addr *Term, v *ssa.UnOp, useMem bool) *Term {
 	case "alloc":
 		// uninitialised local: zero value
 		if useMem {
-			if a, ok := addr.V.(*ssa.Alloc); ok && !allocEscapes(a) {
+			if a, ok := addr.V.(*ssa.Alloc); ok && !allocEscapes(a) && !hasWholeStore(a) {
 				et := a.Type().Underlying().(*types.Pointer).Elem()
 				switch et.Underlying().(type) {
 				case *types.Struct, *types.Array, *types.Basic:
